@@ -22,25 +22,29 @@ Inductive nt := NExpr | NParens | NInside | NBrackets | NBraces.
 Definition slash_now : parser unit := unitp (terminated (tag (b "/")) (pnot (tag (b "*")))).
 Definition slash_legacy : parser unit := unitp (terminated (tag (b "/")) (none_of (b "*"))).
 
+(* the three parts of `expression`: optional prefix, atom, chain of postfix forms *)
+Definition prefix_alt : parser bytes := alt [tag (b "&"); tag (b "*"); tag (b "")].
+Definition atom_alt (self : nt -> parser bytes) : parser bytes :=
+  alt [ rust_name;
+        map_res digit1 to_str;
+        quoted_string;
+        (fun j => self NParens j);
+        (fun j => self NBrackets j) ].
+Definition postfix_alt (self : nt -> parser bytes) : parser bytes :=
+  alt [ preceded (context (b "separator") (tag (b "."))) (fun j => self NExpr j);
+        preceded (tag (b "::")) (fun j => self NExpr j);
+        (fun j => self NParens j);
+        (fun j => self NBraces j);
+        (fun j => self NBrackets j);
+        preceded (tag (b "!")) (fun j => self NParens j);
+        preceded (tag (b "!")) (fun j => self NBrackets j) ].
+
 Definition exprF_gen (slash : parser unit) (self0 : nt -> parser bytes) (x : nt) : parser bytes := fun i0 =>
   let self := fun y j => self0 y j in
   match x with
   | NExpr =>
     map_res (recognize (context (b "Expected rust expression")
-      (pair (pair (alt [tag (b "&"); tag (b "*"); tag (b "")])
-                  (alt [ rust_name;
-                         map_res digit1 to_str;
-                         quoted_string;
-                         (fun j => self NParens j);
-                         (fun j => self NBrackets j) ]))
-            (fold_many0_unit
-               (alt [ preceded (context (b "separator") (tag (b "."))) (fun j => self NExpr j);
-                      preceded (tag (b "::")) (fun j => self NExpr j);
-                      (fun j => self NParens j);
-                      (fun j => self NBraces j);
-                      (fun j => self NBrackets j);
-                      preceded (tag (b "!")) (fun j => self NParens j);
-                      preceded (tag (b "!")) (fun j => self NBrackets j) ]))))) to_str
+      (pair (pair prefix_alt (atom_alt self)) (fold_many0_unit (postfix_alt self))))) to_str
   | NParens =>
     map_res (recognize (delimited (tag (b "(")) (fun j => self NInside j) (tag (b ")")))) to_str
   | NBrackets =>
